@@ -65,7 +65,10 @@ def ask(ffi, s):
         if isinstance(e, (KeyboardInterrupt, SystemExit)):
             raise
         return dict(err=type(e).__name__), None
-    return dict(ok=describe(ffi, ct)), ct
+    try:
+        return dict(ok=describe(ffi, ct)), ct
+    except Exception as e:          # the type exists but cannot be described (e.g. a malformed ct_name)
+        return dict(err="describe: %s: %s" % (type(e).__name__, str(e)[:200])), ct
 
 
 def make_pair(cdef):
@@ -113,21 +116,33 @@ def getctype_item(ffi_py, ffi_c, item):
         except Exception as e:
             res[side] = dict(err=type(e).__name__)
             continue
-        r["desc"] = describe(ffi, ct)
+        # every step records an exception (class + message) as the observed outcome of this item
+        try:
+            r["desc"] = describe(ffi, ct)
+        except Exception as e:
+            r["desc"] = None
+            r["desc_err"] = "%s: %s" % (type(e).__name__, str(e)[:300])
         r["cname"] = ct.cname
         try:
             r["sizeof"] = ffi.sizeof(ct)
         except Exception:
             r["sizeof"] = None
-        name = ffi.getctype(ct)
+        try:
+            name = ffi.getctype(ct)
+        except Exception as e:
+            name = None
+            r["getctype_err"] = "%s: %s" % (type(e).__name__, str(e)[:300])
         r["getctype"] = name
         try:
             back = ffi.typeof(name)
             r["roundtrip_is"] = back is ct
-            r["roundtrip_desc"] = describe(ffi, back)
+            try:
+                r["roundtrip_desc"] = describe(ffi, back)
+            except Exception as e:
+                r["roundtrip_desc"] = "describe: %s: %s" % (type(e).__name__, str(e)[:200])
         except Exception as e:
             r["roundtrip_is"] = False
-            r["roundtrip_err"] = type(e).__name__
+            r["roundtrip_err"] = "%s: %s" % (type(e).__name__, str(e)[:200])
         r["getctype_str"] = None
         try:
             r["getctype_str"] = ffi.getctype(s)
@@ -139,7 +154,7 @@ def getctype_item(ffi_py, ffi_c, item):
             try:
                 d["text"] = ffi.getctype(ct, x)
             except Exception as e:
-                d["err"] = type(e).__name__
+                d["err"] = "%s: %s" % (type(e).__name__, str(e)[:200])
                 xs.append(d)
                 continue
             rr, _ = ask(ffi, d["text"])
